@@ -115,9 +115,16 @@ impl Cursor {
         match self {
             Self::BeginAligned(cursor) => {
                 if distance >= 0 {
-                    Ok(Self::BeginAligned(cursor + distance as usize))
-                } else if distance.abs() as usize <= *cursor {
-                    Ok(Self::BeginAligned(cursor - distance.abs() as usize))
+                    if let Some(shifted) = cursor.checked_add(distance as usize) {
+                        Ok(Self::BeginAligned(shifted))
+                    } else {
+                        Err(StamError::CursorOutOfBounds(
+                            Cursor::BeginAligned(*cursor),
+                            "Can't shift cursor to the right, distance exceeds bounds",
+                        ))
+                    }
+                } else if distance.unsigned_abs() <= *cursor {
+                    Ok(Self::BeginAligned(cursor - distance.unsigned_abs()))
                 } else {
                     Err(StamError::CursorOutOfBounds(
                         Cursor::BeginAligned(*cursor),
@@ -125,18 +132,13 @@ impl Cursor {
                     ))
                 }
             }
-            Self::EndAligned(cursor) => {
-                if distance <= 0 {
-                    Ok(Self::EndAligned(cursor + distance))
-                } else if distance <= cursor.abs() {
-                    Ok(Self::EndAligned(cursor + distance))
-                } else {
-                    Err(StamError::CursorOutOfBounds(
-                        Cursor::EndAligned(*cursor),
-                        "Can't shift cursor to the right, distance exceeds cursor",
-                    ))
-                }
-            }
+            Self::EndAligned(cursor) => match cursor.checked_add(distance) {
+                Some(shifted) if shifted <= 0 => Ok(Self::EndAligned(shifted)),
+                _ => Err(StamError::CursorOutOfBounds(
+                    Cursor::EndAligned(*cursor),
+                    "Can't shift cursor, distance exceeds cursor",
+                )),
+            },
         }
     }
 }
